@@ -349,7 +349,9 @@ class CreateTopic(Transition):
     sizes = {'Topic': 2, 'Subscription': 1, 'Message': 1, 'Delivery': 1}
 
     def make_args(self, ex, db):
-        return {'name': z3.String('newname'), 'labels': reldb.sym_value(ex, 'map', 'newlabels')}
+        n = z3.String('newname')
+        ex.assume(n != '')     # documented precondition of NewCreateTopic (it panics otherwise; handlers are checked in C16)
+        return {'name': n, 'labels': reldb.sym_value(ex, 'map', 'newlabels')}
 
     def call(self, ex, db, a):
         p = params(ex, 'CreateTopicParams', Name=a['name'], Labels=a['labels'])
